@@ -318,6 +318,7 @@ func TestVerifC13Cross(t *testing.T) {
 			t.Fatal(err)
 		}
 	}()
+	defer vfC13Watchdog(res, "cross-peer replay")()
 	if err := vfC13Init(); err != nil {
 		t.Fatal(err)
 	}
@@ -380,6 +381,7 @@ func TestVerifC13Cross(t *testing.T) {
 							degraded := false
 							for i, stp := range w.Steps {
 								prefix = append(prefix, stp.Op)
+								vfC13Progress.Add(1)
 								mm, err := x.step(stp.Op)
 								if err != nil {
 									t.Fatalf("walk %d step %d: %v", w.Walk, i, err)
